@@ -95,6 +95,28 @@ PROPS = {
 }
 
 
+_SCHED_TRUSTED = PROPS["C14"]["trusted"]
+_SCHED_ASSUME = PROPS["C14"]["assumptions"]
+_SCHED_NOTE = PROPS["C14"]["level_note"]
+_SCHED_TIE = (" Tie: the event log the real executor writes through the verif hooks, for generated task graphs under seeded schedule perturbation, "
+              "is replayed through the same `replay`; every log must be accepted and pass the property's raw-trace monitor.")
+
+
+def _sched(pid, text):
+    PROPS[pid] = {"lean": "Props." + pid, "domains": [{"name": "sched"}], "trusted": _SCHED_TRUSTED, "assumptions": _SCHED_ASSUME,
+                  "level_text": text + _SCHED_TIE, "level_note": _SCHED_NOTE}
+
+
+_sched("C01", "Theorems over every accepted trace of the executor LTS (all programs, flags, interleavings): when a command of an activation starts, every "
+              "dependency activation has entered, exited and returned ok (C01_deps_done_ok, C01_cmd_start); a dependency served by a dedup waiter "
+              "returned only after the one registered execution finished, with that execution's result (C01_shared, C01_shared_dep); the raw monitors "
+              "wakeAfterDone / depsExitedBefore hold on every accepted trace.")
+_sched("C06", "Theorems over every accepted trace: a dedup key is registered at most once and held by exactly one activation; only the registering "
+              "activation runs a body, every other activation meeting the key becomes a waiter that never starts a command and returns the execution's "
+              "outcome after it finished; run: always never dedups. Whether two references get the same key exactly when they are observably equal is "
+              "the hash function's business: checked by the harness (key vs. observable digest), see DESIGN.")
+
+
 def _has_meta(s):
     return any(ch in s for ch in ".()[]+?|\\^${}")
 
